@@ -102,6 +102,7 @@ type world struct {
 	cuts     int
 	acted    bool
 	acked    []*message.UpstreamCallAck
+	lastReply *message.DownstreamCall
 }
 
 func (w *world) script() *sim.Script {
@@ -161,7 +162,18 @@ func (w *world) script() *sim.Script {
 			a := w.pendingActs[i]
 			w.pendingActs = append(w.pendingActs[:i:i], w.pendingActs[i+1:]...)
 			if w.p.Spurious {
-				switch vsched.Choose("spurious", 3) {
+				switch vsched.Choose("spurious", 4) {
+				case 3:
+					// the same reply delivered twice more (a caller waits with a 1-buffered channel: the dispatcher must not block)
+					if w.lastReply != nil {
+						w.spurious++
+						for k := 0; k < 2; k++ {
+							cp := *w.lastReply
+							if b.Send(c, &cp) {
+								w.pushedReplies = append(w.pushedReplies, cp.CallID)
+							}
+						}
+					}
 				case 1:
 					w.spurious++
 					id := fmt.Sprintf("x-unknown-%d", w.spurious)
@@ -196,8 +208,10 @@ func (w *world) script() *sim.Script {
 				w.acked = append(w.acked, ack)
 				// a call that waits for a reply gets one (possibly before the ack, see below)
 			case "reply":
-				if b.Send(c, &message.DownstreamCall{CallID: "r-" + a.call.CallID, RequestCallID: a.call.CallID, SourceNodeID: "peer", Name: a.call.Name, Type: "t", Payload: []byte("reply-to:" + a.call.CallID)}) {
+				rp := &message.DownstreamCall{CallID: "r-" + a.call.CallID, RequestCallID: a.call.CallID, SourceNodeID: "peer", Name: a.call.Name, Type: "t", Payload: []byte("reply-to:" + a.call.CallID)}
+				if b.Send(c, rp) {
 					w.pushedReplies = append(w.pushedReplies, "r-"+a.call.CallID)
+					w.lastReply = rp
 				}
 			}
 		}
@@ -259,6 +273,14 @@ func (w *world) main() {
 		}
 	}
 	wg.Wait()
+	if w.p.Incoming > 0 {
+		vsched.Quiesce()
+		if c := w.B.Live(); c != nil {
+			id := "in-last"
+			w.pushed = append(w.pushed, id)
+			w.B.Send(c, &message.DownstreamCall{CallID: id, SourceNodeID: "peer", Name: "incoming", Type: "t", Payload: []byte("payload-" + id)})
+		}
+	}
 	w.Phase = "closing"
 	vsched.Quiesce()
 	xctx, xcancel := kit.Ctx(5 * time.Second)
